@@ -1415,18 +1415,29 @@ impl World {
                 self.quiesce();
                 self.sync();
             }
-            "goi" => {
+            "goi" | "agoi" => {
+                // agoi: the same insertion through the AnyCache view of the cache
                 let ty = Ty::parse(toks[1]);
                 let id = toks[2];
                 let val: i64 = toks[3].parse().unwrap();
                 let key = (ty, id.to_string());
                 let was = self.peek(&key).is_some();
                 let c = self.cache();
-                let got = match ty {
-                    Ty::L => c.get_or_insert::<L>(id, L::from(val)).read().v,
-                    Ty::LS => c.get_or_insert::<LS>(id, LS::from(val)).read().v,
-                    Ty::V => c.get_or_insert::<V>(id, V { v: val, t: Tracked::new() }).read().v,
-                    _ => panic!("goi type"),
+                let got = if toks[0] == "agoi" {
+                    let c = c.as_any_cache();
+                    match ty {
+                        Ty::L => c.get_or_insert::<L>(id, L::from(val)).read().v,
+                        Ty::LS => c.get_or_insert::<LS>(id, LS::from(val)).read().v,
+                        Ty::V => c.get_or_insert::<V>(id, V { v: val, t: Tracked::new() }).read().v,
+                        _ => panic!("goi type"),
+                    }
+                } else {
+                    match ty {
+                        Ty::L => c.get_or_insert::<L>(id, L::from(val)).read().v,
+                        Ty::LS => c.get_or_insert::<LS>(id, LS::from(val)).read().v,
+                        Ty::V => c.get_or_insert::<V>(id, V { v: val, t: Tracked::new() }).read().v,
+                        _ => panic!("goi type"),
+                    }
                 };
                 self.obs.push(format!("{op} -> {got}"));
                 self.present.insert(key.clone());
